@@ -76,8 +76,9 @@ def main(a):
     bad = [r for r in out if not r['ok']]
     rep = {'variants': len(out), 'breaking': sum(1 for r in out if r['kind'] == 'breaking'),
            'neutral': sum(1 for r in out if r['kind'] == 'neutral'), 'failed': [r['name'] for r in bad], 'results': out}
-    with open(os.path.join(VERIF, 'selftest_report.json'), 'w') as f:
-        json.dump(rep, f, indent=1)
+    if not a.only:
+        with open(os.path.join(VERIF, 'selftest_report.json'), 'w') as f:
+            json.dump(rep, f, indent=1)
     for r in out:
         print('%-9s %-40s %s %s' % (r['kind'], r['name'], 'ok' if r['ok'] else 'FAILED: ' + r['why'],
                                    ' '.join('%s=%d' % (p, v['exit']) for p, v in r['results'].items())))
